@@ -291,6 +291,7 @@ pub fn cli(args: &[String]) -> i32 {
     let inp = arg_value(args, "--in").expect("--in");
     let outp = arg_value(args, "--out").expect("--out");
     let any = arg_value(args, "--any").expect("--any");
+    let ids = arg_value(args, "--ids").map(|p| Ids::load(&p));
     let home = private_home("c19");
     let db = Db::open().expect("on-disk database in the private directory");
     let queries: Vec<String> = read_lines(&inp).iter().map(|l| serde_json::from_str::<String>(l).unwrap_or_else(|_| l.clone())).collect();
@@ -303,10 +304,11 @@ pub fn cli(args: &[String]) -> i32 {
         let mode = ["default", "exact", "describe"][qi % 3];
         let o = run_query(&db, q, mode == "describe");
         let results: Vec<Value> = o.results.iter().map(|r| match r {
-            Ok(v) => json!({"k": "val", "num": v.value.numer().to_string(), "den": v.value.denom().to_string(),
+            Ok(v) => json!({"k": "val", "u": ids.as_ref().map(|i| crate::lang::units_json(&unit_names(&v.unit), i)).unwrap_or_else(|| json!([])), "msg": "",
+                            "num": v.value.numer().to_string(), "den": v.value.denom().to_string(),
                             "decimal": v.value.display(&spec).to_string(), "has_numerator": v.unit.has_numerator(),
                             "unit_plural": v.unit.display(true).to_string(), "unit_singular": v.unit.display(false).to_string()}),
-            Err((m, _, _)) => json!({"k": "err", "msg": m, "num": "", "den": "", "decimal": "", "has_numerator": false, "unit_plural": "", "unit_singular": ""}),
+            Err((m, _, _)) => json!({"k": "err", "msg": m, "u": [], "num": "", "den": "", "decimal": "", "has_numerator": false, "unit_plural": "", "unit_singular": ""}),
         }).collect();
         // description block as the library reports it: query, description, source description and url
         let mut descs = Vec::new();
